@@ -50,15 +50,6 @@ def TaskInput.valid (t : TaskInput) (requireTitle isEpic : Bool) : Bool :=
   (t.resultPath.isSome == t.resultSummary.isSome) &&
   !(isEpic && (t.epic.isSome || t.state.isSome || t.claim.isSome))
 
-/-- the `updates` map plus the two result keys -/
-structure SetReq where
-  u : Updates := {}
-  resultPath    : Option String := none
-  resultSummary : Option String := none
-  deriving DecidableEq, Repr, Inhabited
-
-def SetReq.isEmpty (r : SetReq) : Bool := r.u.isEmpty && r.resultPath.isNone && r.resultSummary.isNone
-
 def optNE (s : String) : Option String := if s == "" then none else some s
 
 /-- `buildFlagUpdates` -/
@@ -70,11 +61,6 @@ def flagUpdates (f : Flags) : SetReq :=
 def TaskInput.toSetReq (t : TaskInput) : SetReq :=
   { u := { title := t.title, body := t.body, epic := t.epic, state := t.state, claim := t.claim },
     resultPath := t.resultPath, resultSummary := t.resultSummary }
-
-/-- which item a section works on: a given id, or the id created by the first section -/
-inductive IdRef where
-  | lit (id : Id) | created
-  deriving DecidableEq, Repr, Inhabited
 
 structure PlanTask where
   title : Option String := none
@@ -88,25 +74,16 @@ structure PlanInput where
   tasks : List PlanTask := []
   deriving DecidableEq, Repr, Inhabited
 
-/-- one `withLock` closure -/
+/-- one `withLock` closure; every mutating command is exactly one -/
 inductive Sec where
-  | create (isEpic : Bool) (epicId title body : String)
-  | result (id : IdRef) (summary path : String)
-  | set (id : IdRef) (u : Updates)
-  | link (unlink : Bool) (f t : Id)
+  | create (isEpic : Bool) (epicId title body : String) (follow : SetReq)
+  | update (id : Id) (r : SetReq)
+  | links (unlink : Bool) (edges : List (Id × Id))
   | claimOldest (epic : Id)
   | prune (apply : Bool)
   | compact
   | plan (p : PlanInput)
   deriving DecidableEq, Repr, Inhabited
-
-/-- `applySetUpdates`: the pre-lock pairing test, then 0–2 sections -/
-def setSections (id : IdRef) (r : SetReq) : Except CmdErr (List Sec) :=
-  match r.resultPath, r.resultSummary with
-  | none, none => .ok [Sec.set id r.u]
-  | some _, none => .error .resultPair
-  | none, some _ => .error .resultPair
-  | some p, some s => .ok ([Sec.result id s p] ++ (if r.u.isEmpty then [] else [Sec.set id r.u]))
 
 /-! ### plan validation (`(*PlanInput).Validate`) -/
 def optBlank (o : Option String) : Bool := match o with | some s => Text.isBlank s | none => false
@@ -148,11 +125,8 @@ def newTaskHasFlagInput (f : Flags) : Bool :=
 def setHasFlagInput (f : Flags) : Bool :=
   newTaskHasFlagInput f || f.resultPath != "" || f.resultSummary != ""
 
-def followUps (r : SetReq) : Except CmdErr (List Sec) :=
-  if r.isEmpty then .ok [] else setSections .created r
-
-/-- pre-lock validation and the section list of each command; `agent` is `--agent` -/
-def sections (agent : String) : Request → Except CmdErr (List Sec)
+/-- pre-lock validation and the lock section of each command; `agent` is `--agent` -/
+def sectionOf (agent : String) : Request → Except CmdErr Sec
   | .newTask i =>
     if i.bodyStdin then
       if i.flags.body != "" then .error .bodyExclusive
@@ -162,17 +136,16 @@ def sections (agent : String) : Request → Except CmdErr (List Sec)
         else
           let r := flagUpdates i.flags
           let r := { r with u := { r.u with title := none, epic := none } }
-          -- (`new task` has no result flags, so the follow-up pairing test cannot fail here)
-          .ok ([Sec.create false i.flags.epic title i.stdinText] ++
-               (match followUps r with | .ok l => l | .error _ => []))
+          if !r.paired then .error .resultPair
+          else .ok (Sec.create false i.flags.epic title i.stdinText r)
     else if !i.piped && newTaskHasFlagInput i.flags then
       let title := Text.trimSpace i.flags.title
       if title == "" then .error .needTitle
       else
         let r := flagUpdates i.flags
         let r := { r with u := { r.u with title := none, epic := none } }
-        .ok ([Sec.create false i.flags.epic title i.flags.body] ++
-             (match followUps r with | .ok l => l | .error _ => []))
+        if !r.paired then .error .resultPair
+        else .ok (Sec.create false i.flags.epic title i.flags.body r)
     else match (if i.piped then i.json else none) with
       | none => .error .parseErr
       | some t =>
@@ -180,23 +153,23 @@ def sections (agent : String) : Request → Except CmdErr (List Sec)
         else
           let r := t.toSetReq
           let r := { r with u := { r.u with title := none, body := none, epic := none } }
-          let fu := if t.state.isSome || t.claim.isSome || t.resultPath.isSome then
-                      (match followUps r with | .ok l => l | .error _ => []) else []
-          .ok ([Sec.create false (t.epic.getD "") (t.title.getD "") (t.body.getD "")] ++ fu)
+          let r := if t.state.isSome || t.claim.isSome || t.resultPath.isSome then r else {}
+          if !r.paired then .error .resultPair
+          else .ok (Sec.create false (t.epic.getD "") (t.title.getD "") (t.body.getD "") r)
   | .newEpic i =>
     if i.bodyStdin then
       if i.flags.body != "" then .error .bodyExclusive
       else
         let title := Text.trimSpace i.flags.title
         if title == "" then .error .needTitle
-        else .ok [Sec.create true "" title i.stdinText]
+        else .ok (Sec.create true "" title i.stdinText {})
     else if !i.piped && Text.trimSpace i.flags.title != "" then
-      .ok [Sec.create true "" (Text.trimSpace i.flags.title) i.flags.body]
+      .ok (Sec.create true "" (Text.trimSpace i.flags.title) i.flags.body {})
     else match (if i.piped then i.json else none) with
       | none => .error .parseErr
       | some t =>
         if !t.valid true true then .error .validation
-        else .ok [Sec.create true "" (t.title.getD "") (t.body.getD "")]
+        else .ok (Sec.create true "" (t.title.getD "") (t.body.getD "") {})
   | .set id i =>
     if id == "" then .error .usage
     else if i.bodyStdin then
@@ -204,38 +177,41 @@ def sections (agent : String) : Request → Except CmdErr (List Sec)
       else if Text.isBlank i.stdinText then .error .emptyBody
       else
         let r := flagUpdates i.flags
-        setSections (.lit id) { r with u := { r.u with body := some i.stdinText } }
+        let r := { r with u := { r.u with body := some i.stdinText } }
+        if !r.paired then .error .resultPair else .ok (Sec.update id r)
     else if !i.piped && setHasFlagInput i.flags then
       let r := flagUpdates i.flags
       let r := if i.flags.body != "" then { r with u := { r.u with body := some i.flags.body } } else r
-      if r.isEmpty then .error .noFields else setSections (.lit id) r
+      if r.isEmpty then .error .noFields
+      else if !r.paired then .error .resultPair else .ok (Sec.update id r)
     else match (if i.piped then i.json else none) with
       | none => .error .parseErr
       | some t =>
         if !t.valid false false then .error .validation
         else
           let r := t.toSetReq
-          if r.isEmpty then .error .noFields else setSections (.lit id) r
+          if r.isEmpty then .error .noFields
+          else if !r.paired then .error .resultPair else .ok (Sec.update id r)
   | .claim id =>
     if id == "" then .error .usage
     else if agent == "" then .error .needAgent
-    else .ok [Sec.set (.lit id) { claim := some agent, state := some "doing" }]
+    else .ok (Sec.update id { u := { claim := some agent, state := some "doing" } })
   | .claimOldest epic =>
-    if agent == "" then .error .needAgent else .ok [Sec.claimOldest epic]
+    if agent == "" then .error .needAgent else .ok (Sec.claimOldest epic)
   | .sequence args =>
     match args with
     | [] | [_] => .error .usage
     | "rm" :: rest =>
       (match rest with
-       | [a, b] => .ok [Sec.link true b a]
+       | [a, b] => .ok (Sec.links true [(b, a)])
        | _ => .error .usage)
     | a :: rest =>
-      .ok (((a :: rest).zip rest).map fun (x, y) => Sec.link false y x)
+      .ok (Sec.links false (((a :: rest).zip rest).map fun (x, y) => (y, x)))
   | .plan p =>
     match p with
     | none => .error .parseErr
-    | some p => if planValid p then .ok [Sec.plan p] else .error .validation
-  | .prune yes => .ok [Sec.prune yes]
-  | .compact => .ok [Sec.compact]
+    | some p => if planValid p then .ok (Sec.plan p) else .error .validation
+  | .prune yes => .ok (Sec.prune yes)
+  | .compact => .ok Sec.compact
 
 end Ergo
